@@ -6,14 +6,27 @@ import ESV.Comp.CgLabel
 namespace ESV.Comp
 open ESV ESV.Beh
 
+/-- macro calls are pieces: for the compiled macros `cx.cm` against the macros `cx.sm` of the source, at expansion depth `fuel` -/
+def MacOK (cx : Cx) (fuel : Nat) : Prop := ∀ (name : String) (args : List Param) (env : Src.Env), EnvOK cx env →
+  PM cx (macroStmt cx.cm name args) (fun k b => Src.tr fuel cx.sm env (.macroCall name (convParams args)) k b) env
+
+/-- without compiled macros no macro call compiles -/
+theorem macOK_nil (cx : Cx) (fuel : Nat) (h : cx.cm = []) : MacOK cx fuel := by
+  intro name args env _ s items s' hr
+  rw [h] at hr
+  simp [macroStmt, fail_ok] at hr
+
 section main
-variable (cx : Cx) (fuel : Nat) (lv : Nat)
+variable (cx : Cx) (fuel : Nat) (lv : Nat) (hM : MacOK cx fuel)
+include hM
 
 mutual
 theorem cStmt_c : ∀ (st : Stmt) (lb : Nat), cgStmt lv st = true → (∀ n ∈ mlStmt st, n ∈ cx.defs) → ∀ (env : Src.Env), EnvOK cx env →
-    PM cx (cStmt [] lb st) (fun k b => Src.tr fuel [] env (toSrcStmt st) k b) env
+    PM cx (cStmt cx.cm lb st) (fun k b => Src.tr fuel cx.sm env (toSrcStmt st) k b) env
   | .op n ps, lb, hg, hu, env, he => simple_pm cx fuel _ lb (by simpa [cgStmt] using hg) env he
-  | .ret, lb, _, hu, env, he => simple_pm cx fuel _ lb rfl env he
+  | .ret, lb, _, hu, env, he => by
+    simp only [cStmt, toSrcStmt]
+    exact ret_pm cx fuel env he
   | .end_, lb, _, hu, env, he => simple_pm cx fuel _ lb rfl env he
   | .hold, lb, _, hu, env, he => simple_pm cx fuel _ lb rfl env he
   | .inl c cp n ps, lb, hg, hu, env, he => simple_pm cx fuel _ lb (by simpa [cgStmt] using hg) env he
@@ -59,10 +72,12 @@ theorem cStmt_c : ∀ (st : Stmt) (lb : Nat), cgStmt lv st = true → (∀ n ∈
     simp only [cStmt, toSrcStmt]
     exact for_pm cx fuel env he lb hd init inc body _ _ _ hg.1.1.1.2 (simple_c cx fuel init _ hg.1.1.2 env he)
       (simple_c cx fuel inc _ hg.1.2 env he) (fun env' he' => cStmts_c body _ hg.2 (fun n hn => hu n (by simp [mlStmt, mlStmts, mlElifs, mlCases, hn])) env' he')
-  | .macroCall .., _, hg, hu, _, _ => by simp [cgStmt] at hg
+  | .macroCall name args, _, _, _, env, he => by
+    simp only [cStmt, toSrcStmt]
+    exact hM name args env he
 
 theorem cStmts_c : ∀ (ss : Stmts) (lb : Nat), cgStmts lv ss = true → (∀ n ∈ mlStmts ss, n ∈ cx.defs) → ∀ (env : Src.Env), EnvOK cx env →
-    PM cx (cStmts [] lb ss) (fun k b => Src.trStmts fuel [] env (toSrcStmts ss) k b) env
+    PM cx (cStmts cx.cm lb ss) (fun k b => Src.trStmts fuel cx.sm env (toSrcStmts ss) k b) env
   | .nil, lb, _, hu, env, he => by
     intro s items s' h
     simp only [cStmts, pure_ok, Prod.mk.injEq] at h
@@ -82,7 +97,7 @@ theorem cStmts_c : ∀ (ss : Stmts) (lb : Nat), cgStmts lv ss = true → (∀ n 
     simp only [toSrcStmts]; rw [Src.trStmts]
 
 theorem cElifsA_c : ∀ (es : Elifs) (lb : Nat), cgElifs lv es = true → (∀ n ∈ mlElifs es, n ∈ cx.defs) → ∀ (env : Src.Env), EnvOK cx env →
-    EAC cx fuel env (synOf es) (cElifsA [] lb es)
+    EAC cx fuel env (synOf es) (cElifsA cx.cm lb es)
   | .nil, lb, _, hu, env, he => by
     intro E s0 s as s' _ h
     simp only [cElifsA, pure_ok, Prod.mk.injEq] at h
@@ -100,7 +115,7 @@ theorem cElifsA_c : ∀ (es : Elifs) (lb : Nat), cgElifs lv es = true → (∀ n
     exact ⟨e1.trans e2, .cons (ea.mono e2.3) er⟩
 
 theorem cElifsB_c : ∀ (es : Elifs) (lb : Nat), cgElifs lv es = true → (∀ n ∈ mlElifs es, n ∈ cx.defs) → ∀ (env : Src.Env), EnvOK cx env →
-    EBC cx fuel env (synOf es) (cElifsB [] lb es)
+    EBC cx fuel env (synOf es) (cElifsB cx.cm lb es)
   | .nil, lb, _, hu, env, he => by
     intro E s0 sA as hall s late s' _ _ h
     cases hall
@@ -139,10 +154,10 @@ theorem cElifsB_c : ∀ (es : Elifs) (lb : Nat), cgElifs lv es = true → (∀ n
       · have hn : a.neg = neg := ha.1
         simp only [elifsBack, backOf, patchNone_append, hbk, hn]
         cases neg <;> rfl
-theorem cStmts_falls : ∀ (ss : Stmts) (lb : Nat), 0 ≤ fuel → cgStmts lv ss = true → (∀ n ∈ mlStmts ss, n ∈ cx.defs) → endsFlowStmts ss = true →
-    ∀ (s : St) (ops : List LItem) (s' : St), cStmts [] lb ss s = .ok (ops, s') → falls ops = false
-  | .nil, lb, _, _, _, he => by simp [endsFlowStmts] at he
-  | .cons st .nil, lb, _, hg, hu, he => by
+theorem cStmts_falls : ∀ (ss : Stmts) (lb : Nat), 0 ≤ fuel → ∀ (env0 : Src.Env), EnvOK cx env0 → cgStmts lv ss = true → (∀ n ∈ mlStmts ss, n ∈ cx.defs) → endsFlowStmts ss = true →
+    ∀ (s : St) (ops : List LItem) (s' : St), cStmts cx.cm lb ss s = .ok (ops, s') → falls ops = false
+  | .nil, lb, _, _, _, _, _, he => by simp [endsFlowStmts] at he
+  | .cons st .nil, lb, _, _, _, hg, hu, he => by
     intro s ops s' h
     simp only [endsFlowStmts] at he
     simp only [cStmts, bind_ok, pure_ok] at h
@@ -151,7 +166,7 @@ theorem cStmts_falls : ∀ (ss : Stmts) (lb : Nat), 0 ≤ fuel → cgStmts lv ss
     obtain ⟨rfl, rfl⟩ := h2
     obtain ⟨rfl, rfl⟩ := h3
     simpa using ends_items he h1
-  | .cons st (.cons st2 r), lb, hf0, hg, hu, he => by
+  | .cons st (.cons st2 r), lb, hf0, env0, he0, hg, hu, he => by
     intro s ops s' h
     simp only [endsFlowStmts] at he
     simp only [cgStmts, Bool.and_eq_true] at hg
@@ -160,14 +175,14 @@ theorem cStmts_falls : ∀ (ss : Stmts) (lb : Nat), 0 ≤ fuel → cgStmts lv ss
     obtain ⟨a, s1, h1, bb, s2, h2, h3⟩ := h
     simp only [Prod.mk.injEq] at h3
     obtain ⟨rfl, rfl⟩ := h3
-    have pA := cStmt_c st lb hg.1 (fun n hn => hu n (by simp [mlStmts, hn])) {} (envOK_empty cx) _ _ _ h1
-    have hne : bb ≠ [] := cStmts_cons_ne lv st2 r _ hg.2.1 _ _ _ h2
+    have pA := cStmt_c st lb hg.1 (fun n hn => hu n (by simp [mlStmts, hn])) env0 he0 _ _ _ h1
+    have hne : bb ≠ [] := cStmts_cons_ne cx.cm lv st2 r _ hg.2.1 _ _ _ h2
     rw [falls_append a bb hne pA.last]
-    exact cStmts_falls (.cons st2 r) _ hf0 (by simp [cgStmts, hg.2.1, hg.2.2]) (fun n hn => hu n (by
+    exact cStmts_falls (.cons st2 r) _ hf0 env0 he0 (by simp [cgStmts, hg.2.1, hg.2.2]) (fun n hn => hu n (by
       simp only [mlStmts, List.mem_append] at hn ⊢; exact .inr hn)) he _ _ _ h2
 
 theorem cCases_c : ∀ (cs : Cases) (lb : Nat) (sw : String) (nf : Bool), cgCases lv sw nf cs = true → (∀ n ∈ mlCases cs, n ∈ cx.defs) →
-    CasesC cx fuel sw nf cs (fun endL bps st => cCases [] lb endL cs bps st)
+    CasesC cx fuel sw nf cs (fun endL bps st => cCases cx.cm lb endL cs bps st)
   | .nil, lb, sw, nf, _, hu => by
     intro env he endL bps st s st' s' _ _ _ h
     simp only [cCases, pure_ok, Prod.mk.injEq] at h
@@ -204,23 +219,23 @@ theorem cCases_c : ∀ (cs : Cases) (lb : Nat) (sw : String) (nf : Bool), cgCase
       simp only [Stmts.isNil, Bool.false_eq_true, if_false] at hgr
       simp only [Stmts.isNil] at h1
       obtain ⟨e1, hw1, hs, d1, sL, eB, ops, sa, sb, n0, hH1, hC1, hD1, ws, hrun, hP, la, ca, hsb⟩ :=
-        defaultStep_c cx fuel endL (.cons b0 br)
+        defaultStep_c cx fuel env he endL (.cons b0 br)
           (fun env' he' => cStmts_c (.cons b0 br) lb hgb (fun n hn => hu n (by rw [mlCases]; exact List.mem_append_left _ hn)) env' he') hw h1
       obtain ⟨e2, nnD, Hr, Cr, hH2, hC2, n1, n2, hsem⟩ := cCases_c r _ sw _ hgr (fun n hn => hu n (by simp [mlStmt, mlStmts, mlElifs, mlCases, hn])) env he endL bps st1 s1 st' s' hb
         (by rw [hw1]; intro bp hbp; simp at hbp) (by rw [hw1, hcr]; simp [hasNone]) h2
       refine ⟨e1.trans e2, fun hd => nnD (by rw [hD1]; exact waitSem_nonone ws (noNone_jump _ _)), hs ++ Hr,
         ([LItem.label sL false] ++ ops ++ [LItem.label eB false]) ++ Cr, by rw [hH2, hH1, List.append_assoc],
         by rw [hC2, hC1, List.append_assoc], ws.nonone.append n1,
-        (((noNone_label _ _).append (hP {} (envOK_empty cx)).nonone).append (noNone_label _ _)).append n2, fun hw' FI _ => ?_⟩
+        (((noNone_label _ _).append (hP env he).nonone).append (noNone_label _ _)).append n2, fun hw' FI _ => ?_⟩
       have hR := (hsem hw' (falls ops = true) (fun hnf hf => by
-        have := cStmts_falls (.cons b0 br) lb (Nat.zero_le _) hgb (fun n hn => hu n (by rw [mlCases]; exact List.mem_append_left _ hn)) hnf _ _ _ hrun
+        have := cStmts_falls (.cons b0 br) lb (Nat.zero_le _) env he hgb (fun n hn => hu n (by rw [mlCases]; exact List.mem_append_left _ hn)) hnf _ _ _ hrun
         rw [this] at hf; cases hf)).stk e1.1 e1.2
       rw [hw1, hD1] at hR
       simp only [wSrc] at hR
       simp only [toSrcCases]
       exact sw_default cx fuel env he endL s.loops s.cases st.waiting hs st.defaultOps d1 sL eB ops sa sb (.cons b0 br) n0 hP la ca ws
         (hsb.trans e2.3) hR
-        (fun k nt b => trCases_nodefault fuel (brkEnv env k) he.1 sw r k nt b (countDefaults_zero r hcr)) FI
+        (fun k nt b => trCases_nodefault fuel cx.sm (brkEnv env k) sw r k nt b (countDefaults_zero r hcr)) FI
   | .cons false n ps body r, lb, sw, nf, hg, hu => by
     intro env he endL bps st s st' s' hb hw hnd h
     obtain ⟨hnm, hlx, hgb, hgr⟩ := cgCases_cons hg
@@ -264,7 +279,7 @@ theorem cCases_c : ∀ (cs : Cases) (lb : Nat) (sw : String) (nf : Bool), cgCase
       simp only [Stmts.isNil, Bool.false_eq_true, if_false] at hgr
       simp only [Stmts.isNil] at h1
       obtain ⟨e1, hw1, hs, d1, ops, sa, sb, n0, hD1, hrun, hP, la, ca, hsb, hcase⟩ :=
-        caseStep_c cx fuel endL bp hbpos (.cons b0 br)
+        caseStep_c cx fuel env he endL bp hbpos (.cons b0 br)
           (fun env' he' => cStmts_c (.cons b0 br) lb hgb (fun n hn => hu n (by rw [mlCases]; exact List.mem_append_left _ hn)) env' he') hw h1
       have hcr : hasNone st.waiting = true → countDefaults r = 0 := by
         intro hh; rw [hh] at hnd'; simp only [if_true] at hnd'; omega
@@ -277,23 +292,23 @@ theorem cCases_c : ∀ (cs : Cases) (lb : Nat) (sw : String) (nf : Bool), cgCase
           (hs ++ [LItem.ljump ⟨n0, bp.name, bp.params⟩ (some sL)]) ++ Hr,
           ([LItem.label sL false] ++ ops ++ [LItem.label eB false]) ++ Cr, by rw [hH2, hH1, List.append_assoc],
           by rw [hC2, hC1, List.append_assoc], (ws.nonone.append (noNone_jump _ _)).append n1,
-          (((noNone_label _ _).append (hP {} (envOK_empty cx)).nonone).append (noNone_label _ _)).append n2, fun hw' FI _ => ?_⟩
+          (((noNone_label _ _).append (hP env he).nonone).append (noNone_label _ _)).append n2, fun hw' FI _ => ?_⟩
         have hR := (hsem hw' (falls ops = true) (fun hnf hf => by
-          have := cStmts_falls (.cons b0 br) lb (Nat.zero_le _) hgb (fun n hn => hu n (by rw [mlCases]; exact List.mem_append_left _ hn)) hnf _ _ _ hrun
+          have := cStmts_falls (.cons b0 br) lb (Nat.zero_le _) env he hgb (fun n hn => hu n (by rw [mlCases]; exact List.mem_append_left _ hn)) hnf _ _ _ hrun
           rw [this] at hf; cases hf)).stk e1.1 e1.2
         rw [hw1, hD1] at hR
         simp only [wSrc] at hR
         simp only [toSrcCases]
         have := sw_case cx fuel env he endL s.loops s.cases st.waiting hs st.defaultOps d1 sL eB ops sa sb (.cons b0 br) n0 bp htest hP la ca ws
           (hsb.trans e2.3) hR
-          (fun hh k nt b => trCases_nodefault fuel (brkEnv env k) he.1 sw r k nt b (countDefaults_zero r (hcr hh))) FI
+          (fun hh k nt b => trCases_nodefault fuel cx.sm (brkEnv env k) sw r k nt b (countDefaults_zero r (hcr hh))) FI
         simpa [caseName, hbn, hbp] using this
       · -- folded: the body is a single exit statement, and nothing falls into its block
         have hlx' : loneExit (.cons b0 br) = true := by
           cases hq : loneExit (.cons b0 br) with
           | true => rfl
           | false =>
-            have : loneJump ops = none := cStmts_ret lv (.cons b0 br) lb hgb hq _ _ _ hrun
+            have : loneJump ops = none := cStmts_ret cx.cm lv (.cons b0 br) lb hgb hq _ _ _ hrun
             rw [hlone] at this; cases this
         have hnf : nf = true := by
           rcases hlx with h0 | h0 | h0
@@ -311,7 +326,7 @@ theorem cCases_c : ∀ (cs : Cases) (lb : Nat) (sw : String) (nf : Bool), cgCase
         simp only [toSrcCases]
         have := (sw_fold cx fuel env he endL s.loops s.cases st.waiting hs st.defaultOps d1 l eB ops sa sb (.cons b0 br) n0 bp htest hlone hP la ca ws
           (hsb.trans e2.3) hR
-          (fun hh k nt b => trCases_nodefault fuel (brkEnv env k) he.1 sw r k nt b (countDefaults_zero r (hcr hh)))).weaken
+          (fun hh k nt b => trCases_nodefault fuel cx.sm (brkEnv env k) sw r k nt b (countDefaults_zero r (hcr hh)))).weaken
           (FI := FI) (fun hf => hFI hnf hf)
         simpa [caseName, hbn, hbp] using this
 
